@@ -404,3 +404,35 @@ def compile_corr(chk: Check, drv: Driver, prepared, cap=None, limit=None):
             chk.unproved_obligation("correspondence:compile(whole pipeline)", f"first difference at {i}: lean …{got[max(0, i - 80):i + 120]} vs python …{want[max(0, i - 80):i + 120]}",
                                     pr.case(capacity=cap))
     chk.corr("compile-whole-pipeline", len(prs), mism)
+
+
+def store_certificates(chk, drv, prepared, kinds=("evaluate", "assemble", "compute")):
+    """Store-target certificates of Props/C05Stores.lean evaluated on the IR the real compiler emitted
+    (optimised module of each prepared problem): every store goes to a local variable, to an array of the
+    OUTPUT tensor (`<out>_vals`, `<out>_<l>_pos/crd`, `bucket_*`) or hands an array to the output struct; a
+    compute kernel stores only into locals, `<out>_vals[...]` and `bucket_*[...]`. The theorems
+    `generateIr_store_targets_best` / `generateIr_compute_structure_untouched_peep` prove this for every
+    kernel of the Lean port; here it is checked on what /repo produced (no trust in the port)."""
+    from . import algebra
+    from .export import export
+
+    reqs, meta = [], []
+    for pr in prepared:
+        if pr.module is None:
+            continue
+        fs = [[nm, "".join(pr.fmts[nm][0]), list(pr.fmts[nm][1])] for nm in pr.problem.formats.keys()]
+        reqs.append("CERT stores " + sx(algebra.export_assignment(pr.assignment)) + " " + sx(fs) + " " + sx(export(pr.module)))
+        meta.append(pr)
+    for pr, rep in zip(meta, drv.batch(reqs)):
+        names = [f.name.name for f in pr.module.definitions]
+        if not isinstance(rep, list) or len(rep) != len(names):
+            chk.unproved_obligation("correspondence:ir-reader", "CERT stores failed: " + str(rep)[:200], pr.case())
+            continue
+        for nm, ok in zip(names, rep):
+            if nm not in kinds:
+                continue
+            chk.count(f"store_certificate_{nm}_{ok}")
+            if ok != "true":
+                what = ("compute kernel stores into something other than a local, <out>_vals[...] or a bucket (structure arrays / tensor struct)"
+                        if nm == "compute" else f"{nm} kernel stores into an array or struct that does not belong to the output tensor")
+                chk.unproved_obligation("certificate:storeCert(" + nm + ")", what, pr.case(kernel=nm))
